@@ -102,3 +102,44 @@ Proof.
       by (unfold t_p, t_q, minhap, num_alt, t_n; field; unfold t_n in Hn0; exact Hn0).
     assert (0 <= 1 - t_p t - t_q t + minhap t) by (rewrite E; apply div_nonneg; lra). lra.
 Qed.
+
+(* ---- the cubic changes sign on the admissible interval ------------------------------- *)
+
+(* the cubic is the EM fixed-point equation
+     (2n f - num_alt) (f00 f11 + f01 f10) - n11 f00 f11 = 0:
+   at f = minhap = num_alt/2n it equals - n11 f00 f11, at f = maxhap it equals n11 f01 f10 *)
+Lemma cubic_at_minhap t : ~ t_n t == 0 ->
+  cubic t (minhap t) == - (n11 t * minhap t * ((n12 t + n21 t + 2 * n22 t) / (2 * t_n t))).
+Proof.
+  intro Hn. unfold cubic, cub_a, cub_b, cub_c, cub_d, minhap, num_alt, t_p, t_q. unfold t_n in *.
+  destruct t as [a00 a01 a02 a10 a11 a12 a20 a21 a22]. cbn [n00 n01 n02 n10 n11 n12 n20 n21 n22] in *.
+  field. exact Hn.
+Qed.
+
+Lemma cubic_at_maxhap t : ~ t_n t == 0 ->
+  cubic t (maxhap t) == n11 t * ((n01 t + 2 * n02 t + n12 t) / (2 * t_n t)) * ((n10 t + 2 * n20 t + n21 t) / (2 * t_n t)).
+Proof.
+  intro Hn. unfold cubic, cub_a, cub_b, cub_c, cub_d, maxhap, num_alt, t_p, t_q. unfold t_n in *.
+  destruct t as [a00 a01 a02 a10 a11 a12 a20 a21 a22]. cbn [n00 n01 n02 n10 n11 n12 n20 n21 n22] in *.
+  field. exact Hn.
+Qed.
+
+(* so for every table of non-negative counts the cubic is <= 0 at minhap and >= 0 at maxhap: it
+   has a real root in the admissible interval (intermediate values; not formalised), and a solver
+   that reports none has lost one *)
+Lemma cubic_sign_change t : tab_nonneg t -> 0 < t_n t ->
+  cubic t (minhap t) <= 0 /\ 0 <= cubic t (maxhap t).
+Proof.
+  intros (P00 & P01 & P02 & P10 & P11 & P12 & P20 & P21 & P22) Hn.
+  assert (~ t_n t == 0) as Hn0 by lra.
+  assert (0 < 2 * t_n t) as H2n by lra.
+  rewrite (cubic_at_minhap t Hn0), (cubic_at_maxhap t Hn0). split.
+  - assert (0 <= minhap t) as A by (unfold minhap, num_alt; apply div_nonneg; lra).
+    assert (0 <= (n12 t + n21 t + 2 * n22 t) / (2 * t_n t)) as B by (apply div_nonneg; lra).
+    assert (0 <= n11 t * minhap t) as C by (apply Qmult_le_0_compat; assumption).
+    assert (0 <= n11 t * minhap t * ((n12 t + n21 t + 2 * n22 t) / (2 * t_n t))) by (apply Qmult_le_0_compat; assumption).
+    lra.
+  - assert (0 <= (n01 t + 2 * n02 t + n12 t) / (2 * t_n t)) as A by (apply div_nonneg; lra).
+    assert (0 <= (n10 t + 2 * n20 t + n21 t) / (2 * t_n t)) as B by (apply div_nonneg; lra).
+    apply Qmult_le_0_compat; [apply Qmult_le_0_compat|]; assumption.
+Qed.
